@@ -168,9 +168,8 @@ func classifyCrash(log string) (libFrame, msg string, excerpt string) {
 			if p := strings.LastIndex(fn, "("); p > 0 {
 				fn = fn[:p]
 			}
-			if strings.HasPrefix(fn, "runtime.") || strings.HasPrefix(fn, "panic(") || fn == "panic" ||
-				strings.HasPrefix(fn, "log.") || strings.HasPrefix(fn, "created by") ||
-				strings.HasPrefix(fn, "internal/") || strings.HasPrefix(fn, "sync.") {
+			// skip the standard library: the innermost frame that belongs either to go9p or to the harness decides
+			if !strings.HasPrefix(fn, "github.com/rminnich/go9p.") && !strings.HasPrefix(fn, "verif/") && !strings.HasPrefix(fn, "main.") {
 				continue
 			}
 			if first {
